@@ -63,7 +63,10 @@ RawTexts == {
   "X = true && false || true; Y = not true or true; Z = !false; print X Y Z;", "X = 2 power 3 power 2; print X;", "X = -2 ** 2; Y = (-2) ** 2; print X Y;",
   "X = \"a\" + \"b\" + str(1) + chr(65); print X;", "X = 10 % 4 * 2 - 1 / 1; print X;", "X = ii * ii; print X;", "X = 2 + 3 * ii; print imag(X);",
   "X = pi > 3 and ee < 3 and phi > 1; print X;", "X = on; Y = off; print X Y;", "trace false; nop; print 1;", "do str(1); print 2;", "let X = 3; print X;",
-  "put 1 2; put \"x\"; print \"\";", "X = null; print isnull(X) typeof(X);", "X = b64enc(raw(\"hello\")); print X b64dec(X).count();" }
+  "put 1 2; put \"x\"; print \"\";",
+  \* expression statements that need the keyword, adjacent print arguments
+  "do \"abc\".count(); print 1;", "do (1 + 2); print 2;", "do 5; print 3;", "T = tab(1, 1); do T.concat(2); T.concat(3); print T.count();", "do tab(1, 1).count(); print 4;",
+  "print 5 (-1);", "print (1) (2) (3);", "X = 2; print X \"\" (X + 1);", "print \"a\" (-1) \"b\" -1;", "print 1 - 1 (- 1);", "X = 3; print (X) (-X) -X;", "print not true (not false);", "X = null; print isnull(X) typeof(X);", "X = b64enc(raw(\"hello\")); print X b64dec(X).count();" }
 
 VARIABLE p
 Init == p \in {[kind |-> "J", x |-> x] : x \in JudgedExpr \cup JudgedStmt} \cup {[kind |-> "R", t |-> t] : t \in RawTexts}
